@@ -633,9 +633,16 @@ class NetworkingThread(threading.Thread):
                     read_timeout = 0.05
 
             # Read and react to as many as 50 packets.
-            while num_packets < 50 and not self.interrupt:
-                packet = self.connection.reactor.read_packet(
-                    self.connection.file_object, timeout=read_timeout)
+            while num_packets < 50:
+                # Fetch the reactor and the stream before testing 'interrupt':
+                # once this thread is interrupted, another thread may start a
+                # new connection, which replaces them, and that connection's
+                # stream must only be read by its own networking thread.
+                reactor = self.connection.reactor
+                file_object = self.connection.file_object
+                if self.interrupt:
+                    break
+                packet = reactor.read_packet(file_object, timeout=read_timeout)
                 if not packet:
                     break
                 num_packets += 1
